@@ -356,6 +356,7 @@ type ValCase struct {
 	Compression bool    `json:"compression,omitempty"`
 	Frames      []Frame `json:"frames"`
 	Piece       int     `json:"piece"`
+	DataFrame   bool    `json:"data_frame,omitempty"` // the endpoint has an OnDataFrame handler besides its message handler
 }
 
 var utf8Bad = [][]byte{{0xff}, {0xc0, 0x80}, {0xe2, 0x82}, {0xed, 0xa0, 0x80}, {0xf4, 0x90, 0x80, 0x80}, {'a', 0x80, 'b'}}
@@ -383,6 +384,7 @@ func genPayload(r *simrt.Rand, text bool) []byte {
 
 func genValCase(r *simrt.Rand, tier string, idx int) *ValCase {
 	c := &ValCase{Seed: r.Uint64(), Server: r.Bool(0.6), Compression: r.Bool(0.3), Piece: r.Pick(1, 2, 3, 7, 64, 100000)}
+	c.DataFrame = r.Bool(0.25)
 	n := r.Range(1, 6)
 	inFrag := false
 	for i := 0; i < n; i++ {
@@ -444,7 +446,13 @@ func genValCase(r *simrt.Rand, tier string, idx int) *ValCase {
 				f.Payload = append(f.Payload, []byte("bye ☃")...)
 			}
 		default: // a violation spliced in
-			switch r.Intn(9) {
+			switch r.Intn(10) {
+			case 9:
+				// new data frame inside a fragmented message, with a control frame in between
+				// (which is legal there and must not make the endpoint forget the open message)
+				c.Frames = append(c.Frames, Frame{Fin: false, Op: r.Pick(1, 2), Masked: c.Server, Payload: []byte(r.PickS("part", "", "p"))})
+				c.Frames = append(c.Frames, Frame{Fin: true, Op: r.Pick(9, 10), Masked: c.Server, Payload: []byte(r.PickS("mid", ""))})
+				f.Op, f.Payload = r.Pick(1, 2), []byte("new")
 			case 0:
 				f.Op, f.Rsv = r.Pick(1, 2), r.Pick(1, 2, 3, 4, 6)
 			case 1:
@@ -505,6 +513,11 @@ func shrinkVal(ci interface{}) []interface{} {
 		x.Compression = false
 		out = append(out, &x)
 	}
+	if c.DataFrame {
+		x := *c
+		x.DataFrame = false
+		out = append(out, &x)
+	}
 	return out
 }
 
@@ -513,7 +526,7 @@ func runVal(t *testing.T, ci interface{}, trace bool) *common.Outcome {
 	o := &common.Outcome{}
 	e := newEnv(true)
 	defer e.close()
-	end := newWSEnd(e, wsCfg{Client: !c.Server, Compression: c.Compression})
+	end := newWSEnd(e, wsCfg{Client: !c.Server, Compression: c.Compression, DataFrame: c.DataFrame})
 	var wire []byte
 	r := simrt.NewRand(c.Seed)
 	wrongMask := false
@@ -606,6 +619,34 @@ func runVal(t *testing.T, ci interface{}, trace bool) *common.Outcome {
 		o.Fail("legal-sequence-rejected", role, "the sequence is legal by RFC 6455 but nbio failed the connection: %v", end.parseErr)
 	}
 	replies, _ := decodeFrames(end.Conn.Out)
+	for i, f := range replies {
+		// (RFC 6455 5.1: a client masks every frame it sends, a server none - empty ones too)
+		if f.Masked == c.Server {
+			o.Fail("reply-mask-bit", role, "frame %d the %s sent in reply (opcode %d, %d bytes) has mask bit %v", i, role, f.Op, len(f.Payload), f.Masked)
+			break
+		}
+	}
+	if c.DataFrame {
+		// the frame handler sees the payload of every non-empty data frame, in order, as it
+		// is on the wire (before decompression), with the type of its message
+		var want, got []byte
+		fed := c.Frames
+		if cutAfter >= 0 {
+			fed = fed[:cutAfter+1]
+		}
+		for _, f := range fed {
+			if f.Op < 8 {
+				want = append(want, f.Payload...)
+			}
+		}
+		for _, fe := range end.Frames {
+			got = append(got, fe.Payload...)
+		}
+		if !bytes.Equal(want, got) {
+			o.Fail("data-frame-callbacks-differ", role, "legal sequence: the data frames carry %d payload bytes in all, the OnDataFrame callbacks were given %d (or other bytes)", len(want), len(got))
+		}
+		o.Probe("data_frame_handler_runs")
+	}
 	k := 0
 	for _, f := range replies {
 		if f.Op == 10 && k < len(v.Pings) && bytes.Equal(f.Payload, v.Pings[k]) {
